@@ -22,6 +22,7 @@ type seed struct {
 }
 
 var seeds = []seed{
+	{"table equality skips slots both sides flag as shared", "F11", "roaringarray.go", "\t\tfor i, c := range ra.containers {\n\t\t\tif !c.equals(srb.containers[i]) {\n", "\t\tfor i, c := range ra.containers {\n\t\t\tif ra.needCopyOnWrite[i] && srb.needCopyOnWrite[i] {\n\t\t\t\tcontinue\n\t\t\t}\n\t\t\tif !c.equals(srb.containers[i]) {\n", "(*roaring.Bitmap).Equals"},
 	{"ixorBitmap delegates to the operand's in-place ixor", "A1.kernel", "arraycontainer.go", "\treturn value2.xor(ac)\n", "\treturn value2.ixor(ac)\n", "ixorBitmap"},
 	{"ixorBitmap returns the operand", "A6.kernel", "arraycontainer.go", "\treturn value2.xor(ac)\n", "\treturn value2.ixor(ac)\n", "(*roaring.arrayContainer).ixor"},
 	{"Remove bypasses the copy-before-write gate", "A2.32", "roaring.go", "c := rb.highlowcontainer.getWritableContainerAtIndex(i).iremoveReturnMinimized(lowbits(x))\n\t\trb.highlowcontainer.setContainerAtIndex(i, c)\n\t\tif rb.highlowcontainer.getContainerAtIndex(i).isEmpty() {\n\t\t\trb.highlowcontainer.removeAtIndex(i)\n\t\t}\n\t}\n}", "c := rb.highlowcontainer.getContainerAtIndex(i).iremoveReturnMinimized(lowbits(x))\n\t\trb.highlowcontainer.setContainerAtIndex(i, c)\n\t\tif rb.highlowcontainer.getContainerAtIndex(i).isEmpty() {\n\t\t\trb.highlowcontainer.removeAtIndex(i)\n\t\t}\n\t}\n}", "(*roaring.Bitmap).Remove"},
